@@ -118,6 +118,11 @@ class Log:
         return ["-" if not g else ",".join(f"{t}:{o}" for t, o in g) for g in self.groups]
 
 
+def protocol_for(a, b):
+    """the protocol version a scenario's gateway is configured with (the supervision does not depend on it)"""
+    return ["1.4", "2.0", "2.2", "2.1", "1.5"][(int(a) + int(b)) % 5]
+
+
 class Shim(types.SimpleNamespace):
     pass
 
@@ -397,10 +402,14 @@ class SyncRun:
         crashed = []
         with patched(pairs):
             rt = Fraction(self.rt_ms, 1000)
+            pv = protocol_for(self.rt_ms, len(self.activities))
             if self.flavour == "tcpSync":
-                gw = m_tcp.TCPGateway("127.0.0.1", 5003, reconnect_timeout=rt)
+                gw = m_tcp.TCPGateway("127.0.0.1", 5003, reconnect_timeout=rt, protocol_version=pv)
+                # another gateway object of the same class and protocol version lives in the process (a second
+                # MySensors network); it is never started and what it does is its own business
+                self.neighbour = m_tcp.TCPGateway("127.0.0.2", 5003, reconnect_timeout=rt, protocol_version=pv)
             else:
-                gw = m_serial.SerialGateway("/dev/verif-fake", reconnect_timeout=rt)
+                gw = m_serial.SerialGateway("/dev/verif-fake", reconnect_timeout=rt, protocol_version=pv)
             gw.on_conn_made = lambda _g: self.log.out("connMade")
             gw.on_conn_lost = lambda _g, exc: self.log.out("connLost(err)" if exc else "connLost(None)")
             self.gw = gw
@@ -642,10 +651,12 @@ class AsyncRun:
         import mysensors.gateway_tcp as m_tcp
         import mysensors.gateway_serial as m_serial
         rt = Fraction(self.rt_ms, 1000)
+        pv = protocol_for(self.rt_ms, 1)
         if self.flavour == "tcpAsync":
-            gw = m_tcp.AsyncTCPGateway("127.0.0.1", 5003, reconnect_timeout=rt)
+            gw = m_tcp.AsyncTCPGateway("127.0.0.1", 5003, reconnect_timeout=rt, protocol_version=pv)
+            self.neighbour = m_tcp.AsyncTCPGateway("127.0.0.2", 5003, reconnect_timeout=rt, protocol_version=pv)
         else:
-            gw = m_serial.AsyncSerialGateway("/dev/verif-fake", reconnect_timeout=rt)
+            gw = m_serial.AsyncSerialGateway("/dev/verif-fake", reconnect_timeout=rt, protocol_version=pv)
         gw.on_conn_made = lambda _g: self.log.out("connMade")
         gw.on_conn_lost = lambda _g, exc: self.log.out("connLost(err)" if exc else "connLost(None)")
         self.gw = gw
@@ -859,7 +870,9 @@ def wd_sync_real(rt_ms, phase, pump_first, lats, horizon):
              (m_transport, "threading", Shim(Thread=NoThread, Lock=threading.Lock))]
     try:
         with patched(pairs):
-            gw = m_tcp.TCPGateway("127.0.0.1", 5003, reconnect_timeout=Fraction(rt_ms, 1000))
+            pv = protocol_for(rt_ms, phase)
+            gw = m_tcp.TCPGateway("127.0.0.1", 5003, reconnect_timeout=Fraction(rt_ms, 1000), protocol_version=pv)
+            neighbour = m_tcp.TCPGateway("127.0.0.2", 5003, reconnect_timeout=Fraction(rt_ms, 1000), protocol_version=pv)
             gw.on_conn_lost = lambda _g, exc: log.append((clock.ms, "d" if exc else "lost-none"))
             sock = Sock()
             gw.tcp_check_timer = clock.time()
